@@ -563,10 +563,13 @@ def run(scn, sb):
                 if rel in allowed:
                     continue
                 if 'VALIDATE_DIR' in allowed and rel.startswith(os.path.relpath(out_dir, sb.base) + os.sep) \
-                        and '_VALIDATED_' in rel:
+                        and '_VALIDATED_' in rel and rel.endswith('.h5ad'):
                     continue
                 where = 'system-temp' if rel.startswith(os.path.relpath(sb.dirs['systmp'], sb.base)) else 'elsewhere'
-                if judged:
+                # "creates files only at the requested output locations" carries no success-only qualifier (unlike the
+                # scratch clause): a stray file outside scratch and outside the requested outputs is judged after a
+                # failed run of any stage as well
+                if True:      # (was: only when the scratch clause is judged)
                     viol.append({'cls': 'file-created-outside-outputs-%s' % where,
                                  'detail': '%s: unexpected new path %s' % (desc, rel),
                                  'name_prefix': os.path.basename(rel.rstrip('/')).split('_')[0]})
